@@ -104,6 +104,28 @@ theorem two_srcids_select_nothing (c : Cfg) (r : Row) (a b : Int) (hab : a ≠ b
   · subst h1; simp; exact fun h => hab h.symm
   · simp [h1]
 
+/-! ### direct selection with a boolean array (`--mask`) -/
+
+/-- with `--mask` and no time or phase bound the first stage is the entry of the array: a row is kept iff its entry is set and it passes every
+other requested criterion; in particular the array alone selects exactly the rows whose entry is set -/
+theorem direct_mask_spec (c : Cfg) (r : Row) (ht : timeSelected c = false) (hp : phaseSelected c = false) (hm : c.useMask = true) :
+    mask c r = (r.inMask && energyMask c r && coneMask c r && regMask c r && srcMask c r) := by
+  simp [mask, firstMask, ht, hp, hm]
+
+theorem direct_mask_alone (rows : List Row) :
+    select { useMask := true } rows = rows.filter (·.inMask) := by
+  unfold select
+  congr 1
+  funext r
+  simp [mask, firstMask, timeSelected, phaseSelected, energyMask, coneMask, regMask, srcMask, geOpt, ltOpt, leOpt]
+
+/-- a time (or phase) selection takes precedence: the array is then not read at all -/
+theorem direct_mask_ignored_with_time (c : Cfg) (r : Row) (ht : timeSelected c = true) :
+    mask c r = mask { c with useMask := false } r := by
+  have ht' : timeSelected { c with useMask := false } = true := ht
+  simp only [mask, firstMask, ht, ht', if_true]
+  rfl
+
 /-! ### validation -/
 
 /-- a configuration that passes `_validate` has its time bounds inside [TSTART, TSTOP] and properly ordered -/
@@ -137,7 +159,7 @@ theorem gen_phase_mask_eq_model (c : Cfg) (r : Row) : Gen.phase_selection_mask r
 
 /-- non-vacuity: a two-sided window on a concrete file passes validation and keeps the boundary row at tmin, drops the one at tmax -/
 example : validate { tmin := some 2, tmax := some 5 } 0 10 0 100 = none ∧
-    (select { tmin := some 2, tmax := some 5 } [⟨2,0,0,0,0,0,false,false,0,1⟩, ⟨5,0,0,0,0,0,false,false,0,2⟩]).map (·.tag) = [1] := by
+    (select { tmin := some 2, tmax := some 5 } [⟨2,0,0,0,0,0,false,false,0,1,true⟩, ⟨5,0,0,0,0,0,false,false,0,2,true⟩]).map (·.tag) = [1] := by
   decide
 
 end Sel
